@@ -80,7 +80,8 @@ def gen_ledger(rng, n_txn=None, with_queries=False, with_errors=False, rich=True
             P.append({'acct': 'Assets:Cash', 'units': f'{eur:.2f} EUR', 'price': f'@ {rate:.2f} USD'})
             P.append({'acct': 'Assets:Bank:Checking', 'units': None})
         elif kind == 'buy':
-            cur = rng.choice(['HOOL', 'VTI'])
+            # mostly stocks; sometimes a currency that is also held without cost elsewhere in the ledger
+            cur = rng.choice(['HOOL', 'VTI', 'HOOL', 'VTI', 'EUR'])
             lot_no += 1
             cost = D(rng.randint(1000, 30000)) / 100 + D(lot_no) / 1000
             units = rng.randint(1, 20)
@@ -109,6 +110,10 @@ def gen_ledger(rng, n_txn=None, with_queries=False, with_errors=False, rich=True
             cur = rng.choice(['HOOL', 'VTI', 'EUR'])
             amt = D(rng.randint(50, 30000)) / 100
             dirs.append({'k': 'price', 'date': day.isoformat(), 'cur': cur, 'amt': f'{amt:.2f} USD'})
+        if rich and rng.random() < 0.12:
+            # a third currency reachable only through USD (no direct price from the commodities)
+            amt = D(rng.randint(110, 150)) / 100
+            dirs.append({'k': 'price', 'date': day.isoformat(), 'cur': 'USD', 'amt': f'{amt:.2f} CAD'})
         if rich and rng.random() < 0.1:
             dirs.append({'k': 'note', 'date': day.isoformat(), 'acct': rng.choice(ACCOUNTS[:4]),
                          'text': rng.choice(['called', 'checked', 'n/a'])})
